@@ -56,6 +56,8 @@ OBLIGATIONS = [
         "C38_parse_transparent",
         "C38_filter_str_witness",
         "C38_parse_idempotent",
+        "C38_same_mount_equiv",
+        "C38_same_mount_ref",
     )
 ]
 LEAN_TARGETS = ["PydraModel.Props.C38", "PydraModel.Props.C38b"]
